@@ -271,6 +271,15 @@ func c06Run(c *Ctx, sc *c06Scenario, only int) (map[int][]string, Verdict) {
 		done()
 		simrt.Fair()
 		simrt.WaitIdle()
+		if sc.Chain[0] == c06Join || sc.Chain[0] == c06Union {
+			// a union orders the messages of all groups by time and holds back what one parent has delivered until the
+			// other has caught up: what is still held back when the data ends depends on the other groups' traffic, and
+			// is handed out when the task is stopped.  The per-group outputs are compared after that.
+			done := simrt.Expect("StopTask", 3_000_000, time.Hour)
+			d.TM.StopTask("G")
+			done()
+			simrt.WaitIdle()
+		}
 		if strings.Contains(sc.Script, "|httpOut('x')") {
 			_, httpOut = d.Do(http.MethodGet, "/kapacitor/v1/tasks/G/x", "")
 		}
